@@ -74,4 +74,19 @@ TEXT = {
         "note": "Partial: with_context_args / with_prevent_further_calls (base.py) and RecursiveContext.update are modelled (records), not proved; that effective_kwargs excludes the context arguments is C04's subject.",
         "technique": "contract-based deductive verification: own VC generator over the real source + z3/cvc5",
     },
+    "C18": {
+        "level": "For every documented option of the filesystem backend (path, metadata path, memory cache size, read-only flag) the real FilesystemStorageBackend.__init__ (with the StorageBackendBase / "
+                 "StorageBackend / MemoryCache constructors it runs) is proved, for every configuration dictionary and every combination of explicit arguments, to put exactly the effective value "
+                 "(explicit argument if given, else the configuration's value, else the default) into the state that governs behaviour: the data source's base path, the metadata source's data source "
+                 "(shared iff the two paths are equal), the existence and byte budget of the memory cache, the read-only flag. FilesystemStorageBackend/MemoryStorageBackend/NullStorageBackend.to_dict are proved "
+                 "to dump a dictionary whose effective options, read back with no explicit arguments, equal the current ones. StorageBackend.create / RunnerBackend.create are proved to instantiate exactly the "
+                 "class registered for the type with the given configuration (ValueError iff unregistered). FunctionCluster.__init__ is proved to let explicit arguments override the configuration for every field "
+                 "and to ask the registry with exactly the configured type and sub-configuration; FunctionCluster / ConfigurationRepository / Environment.to_dict are proved to dump every field, every cluster under "
+                 "the key it is registered under, every repository in order; Environment.get_cluster is proved (loop invariant, any number of repositories) to return the cluster of the first repository in priority "
+                 "order that defines the name, else None; append_repo / prepend_repo add at lowest / highest priority.",
+        "note": "Partial: the loops of ConfigurationRepository.__init__ / Environment.__init__ / _DefaultFunctionCluster and the JSON/YAML/Jinja loaders are not under contract; nested dumps are linked by the "
+                "uninterpreted dump_of(object) (each object's own to_dict is proved separately, the composition is the stated round-trip lemma). Assumed: configuration values have the documented types; "
+                "pathlib operations are functions of the path strings.",
+        "technique": "contract-based deductive verification: own VC generator over the real source + z3/cvc5",
+    },
 }
